@@ -327,7 +327,8 @@ def n1(ck: Check) -> None:
                     dv = ifm.single_def(a0.id, ifm.cfgn(n))
                 except AnalysisError:
                     dv = None
-                if dv and any(isinstance(c, ast.Call) and callee_name(c) == "sorted" for c in ast.walk(dv[1])):
+                if dv and isinstance(dv[1], ast.ListComp) and len(dv[1].generators) == 1 and not dv[1].generators[0].ifs \
+                        and any(isinstance(c, ast.Call) and callee_name(c) == "sorted" for c in ast.walk(dv[1])):
                     m = _copy.copy(n)
                     m.args = [dv[1]] + list(n.args[1:])
                     nested.append(m)
